@@ -86,14 +86,17 @@ def build(case, seed):
     elif case["akind"] == "val":
         sidecar[na] = {"HED": "Age/#"}
     sidecar[nb] = {"HED": "Item-count/#"}
-    sidecar["colC"] = {"Description": "unreferenced", "HED": {"c1": "Triangle"}}
-    sidecar["ignored"] = {"Description": "no HED here"}
     h2 = case.get("h2", "none")
+    # lean variant: no unreferenced column C and no ignored column, so that the number of columns left to join can be ONE
+    lean = (seed % 3 == 0) and h2 == "none"
+    if not lean:
+        sidecar["colC"] = {"Description": "unreferenced", "HED": {"c1": "Triangle"}}
+        sidecar["ignored"] = {"Description": "no HED here"}
     aref = "HED" if case["akind"] == "hed" else na
     if h2 != "none":
         ref = {"A": "{%s}" % aref, "B": "{%s}" % nb}.get(h2)
         sidecar["host2"] = {"HED": {"g1": ("(%s, Ellipse)" % ref) if ref else "(Ellipse)"}}
-    cols = {"onset": [], "host": [], nb: [], "colC": [], "ignored": []}
+    cols = {"onset": [], "host": [], nb: []} if lean else {"onset": [], "host": [], nb: [], "colC": [], "ignored": []}
     if h2 != "none":
         cols["host2"] = []
     acol = "HED" if case["akind"] == "hed" else na
@@ -105,10 +108,12 @@ def build(case, seed):
         cols["host"].append(_cell("host_" + case["hkind"], c["h"]))
         cols[acol].append(_cell("A", c["a"], case["akind"]))
         cols[nb].append(_cell("B", c["b"]))
-        cols["colC"].append(_cell("C", c["c"]))
+        if not lean:
+            cols["colC"].append(_cell("C", c["c"]))
         if h2 != "none":
             cols["host2"].append({"ok": "g1", "na": "n/a"}[c.get("g", "na")])
-        cols["ignored"].append(rng.choice(["x", "n/a", "7"]))
+        if not lean:
+            cols["ignored"].append(rng.choice(["x", "n/a", "7"]))
         subst = {"A": A_TEXT[case["akind"]], "B": "Item-count/7"}
         parts = []
         if c["h"] == "ok":
@@ -125,6 +130,8 @@ def build(case, seed):
         elif hp == "bare":
             parts.append("(Ellipse)")
         for x in row["extras"]:
+            if lean and x == "C":
+                continue
             parts.append({"A": A_TEXT[case["akind"]], "B": "Item-count/7", "C": "Triangle"}[x])
         expected.append(", ".join(parts))
     order = list(cols)
